@@ -11,6 +11,7 @@ import (
 	"path/filepath"
 	"regexp"
 	"runtime"
+	"strconv"
 	"strings"
 	"testing"
 	"time"
@@ -329,73 +330,123 @@ var _ = identity.ZeroID
 
 // vpC34SleepCase runs one sleep history with a crash before one syscall instance.
 func vpC34SleepCase(base string, serial int, ops []string, pick func(n int) int) (canon string, nt bool, fail string, harnessErr error) {
+	canon, nt, fail, _, harnessErr = vpC34SleepEpochs(base, serial, ops, pick, nil, nil)
+	return
+}
+
+// vpC34SleepEpochs: a first process runs ops on a fresh directory and is killed before the
+// picked syscall instance; the next start is judged. With ops2 != nil a second process then
+// continues on the same directory (it loads the state first, like an agent start) and is
+// either killed before a picked instance (pick2 != nil) or runs to completion; the start
+// after that is judged against the second history. What a crashed process leaves behind
+// (temporary files, partial writes) must not spoil the saves of the process after it.
+func vpC34SleepEpochs(base string, serial int, ops []string, pick func(n int) int, ops2 []string, pick2 func(n int) int) (canon string, nt bool, fail string, epochs int, harnessErr error) {
 	dir := filepath.Join(base, fmt.Sprintf("s%d", serial))
 	os.MkdirAll(dir, 0o700)
 	defer os.RemoveAll(dir)
 	journal := filepath.Join(base, fmt.Sprintf("j%d", serial))
 	defer os.Remove(journal)
-	env := vpC34Env("sleep", dir, "VP_C34_OPS="+strings.Join(ops, ","), "VP_C34_JOURNAL="+journal)
-	pts, err := vpC34Trace(env)
-	if err != nil {
-		return "", false, "", err
-	}
-	if len(pts) == 0 {
-		return fmt.Sprintf("ops=%v (no filesystem syscalls)", ops), false, "", nil
-	}
-	// fresh directory for the crashing run
-	os.RemoveAll(dir)
-	os.MkdirAll(dir, 0o700)
-	os.Remove(journal)
-	i := pick(len(pts))
-	p := pts[i]
-	died, _ := vpC34Crash(env, p)
-	// model
-	state := []bool{false} // asleep after k completed steps
-	asleep := false
-	for _, op := range ops {
-		switch op {
-		case "sleep":
-			asleep = true
-		case "wake":
-			asleep = false
+	probe := filepath.Join(base, fmt.Sprintf("p%d", serial))
+	defer os.RemoveAll(probe)
+	initial := false
+	for epoch, eops := range [][]string{ops, ops2} {
+		if eops == nil {
+			break
 		}
-		state = append(state, asleep)
+		epochs++
+		pk := pick
+		if epoch == 1 {
+			pk = pick2
+		}
+		// crash points of this epoch: traced on a copy of the directory as it is now
+		os.RemoveAll(probe)
+		vpC34CopyDir(dir, probe)
+		os.Remove(journal)
+		pts, err := vpC34Trace(vpC34Env("sleep", probe, "VP_C34_OPS="+strings.Join(eops, ","), "VP_C34_JOURNAL="+journal))
+		if err != nil {
+			return canon, nt, "", epochs, err
+		}
+		os.Remove(journal)
+		env := vpC34Env("sleep", dir, "VP_C34_OPS="+strings.Join(eops, ","), "VP_C34_JOURNAL="+journal)
+		if len(pts) == 0 && epoch == 0 {
+			return fmt.Sprintf("ops=%v (no filesystem syscalls)", ops), false, "", epochs, nil
+		}
+		died := false
+		i := -1
+		var p vpC34Point
+		if pk != nil && len(pts) > 0 {
+			i = pk(len(pts))
+			p = pts[i]
+			died, _ = vpC34Crash(env, p)
+		} else {
+			c := exec.Command(os.Args[0])
+			c.Env = env
+			if out, err := c.CombinedOutput(); err != nil {
+				return canon, nt, "", epochs, fmt.Errorf("second process failed: %v: %s", err, out)
+			}
+		}
+		// model
+		state := []bool{initial} // asleep after k completed steps
+		asleep := initial
+		for _, op := range eops {
+			switch op {
+			case "sleep":
+				asleep = true
+			case "wake":
+				asleep = false
+			}
+			state = append(state, asleep)
+		}
+		var jb [8]byte
+		step, phase := uint32(0), uint32(0)
+		if f, err := os.Open(journal); err == nil {
+			f.ReadAt(jb[:], 0)
+			f.Close()
+			step, phase = binary.LittleEndian.Uint32(jb[:4]), binary.LittleEndian.Uint32(jb[4:])
+		}
+		if !died {
+			step, phase = uint32(len(eops)-1), 1
+		}
+		before := state[step]
+		after := before
+		if phase == 0 {
+			after = state[step+1]
+		} else {
+			before = state[step+1]
+			after = before
+		}
+		what := "ran to completion"
+		if i >= 0 {
+			what = fmt.Sprintf("killed before #%d/%d %s during step %d (%s)", i, len(pts), p.line, step, eops[step])
+			if i > 0 && i < len(pts)-1 {
+				nt = true
+			}
+		}
+		if epoch == 0 {
+			canon = fmt.Sprintf("ops=%v %s; left: %s", eops, what, vpC34Listing(dir))
+		} else {
+			canon += fmt.Sprintf(" || next process (loaded asleep=%v) ops=%v %s; left: %s", initial, eops, what, vpC34Listing(dir))
+		}
+		rep, err := vpC34NextStart(dir)
+		if err != nil {
+			return canon, nt, "", epochs, err
+		}
+		if !rep.OK {
+			return canon, nt, "the next start fails: " + rep.Err, epochs, nil
+		}
+		if _, serr := os.Stat(filepath.Join(dir, "sleep_state.json")); strings.HasPrefix(rep.State, "unreadable") && serr == nil {
+			return canon, nt, fmt.Sprintf("the next start cannot read the saved sleep state (%s)", rep.State), epochs, nil
+		}
+		if rep.Asleep != before && rep.Asleep != after {
+			return canon, nt, fmt.Sprintf("the next start loads sleep state %q (asleep=%v); the agent was asleep=%v before the interrupted step and would have been asleep=%v after it", rep.State, rep.Asleep, before, after), epochs, nil
+		}
+		initial = rep.Asleep
 	}
-	var jb [8]byte
-	step, phase := uint32(0), uint32(0)
-	if f, err := os.Open(journal); err == nil {
-		f.ReadAt(jb[:], 0)
-		f.Close()
-		step, phase = binary.LittleEndian.Uint32(jb[:4]), binary.LittleEndian.Uint32(jb[4:])
-	}
-	if !died {
-		step, phase = uint32(len(ops)-1), 1
-	}
-	before := state[step]
-	after := before
-	if phase == 0 {
-		after = state[step+1]
-	} else {
-		before = state[step+1]
-		after = before
-	}
-	canon = fmt.Sprintf("ops=%v killed before #%d/%d %s during step %d (%s); left: %s", ops, i, len(pts), p.line, step, ops[step], vpC34Listing(dir))
-	nt = i > 0 && i < len(pts)-1
-	rep, err := vpC34NextStart(dir)
-	if err != nil {
-		return canon, nt, "", err
-	}
-	if !rep.OK {
-		return canon, nt, "the next start fails: " + rep.Err, nil
-	}
-	if rep.Asleep != before && rep.Asleep != after {
-		return canon, nt, fmt.Sprintf("the next start loads sleep state %q (asleep=%v); the agent was asleep=%v before the interrupted step and would have been asleep=%v after it", rep.State, rep.Asleep, before, after), nil
-	}
-	return canon, nt, "", nil
+	return canon, nt, "", epochs, nil
 }
 
 func TestVP_C34_Sleep(t *testing.T) {
-	st := vp.NewStats("C34", "sleep", "generated sleep histories (2-7 steps of sleep/wake/poll, optional final stop) on a real sleep.Manager with persistence in a child process, killed before a generated filesystem syscall instance; the next start's loaded state must be asleep/awake as before or after the interrupted step; non-trivial = the crash lies strictly inside the history's syscall sequence")
+	st := vp.NewStats("C34", "sleep", "generated sleep histories (2-7 steps of sleep/wake/poll, optional final stop) on a real sleep.Manager with persistence in a child process, killed before a generated filesystem syscall instance; the next start's loaded state must be readable and asleep/awake as before or after the interrupted step; in two thirds of the cases a second process then continues on the same directory (1-4 steps, run to completion or killed again) and the start after it is judged the same way; non-trivial = the crash lies strictly inside the history's syscall sequence")
 	defer st.Flush()
 	if _, err := exec.LookPath("strace"); err != nil {
 		t.Skip("strace not available")
@@ -413,11 +464,24 @@ func TestVP_C34_Sleep(t *testing.T) {
 			ops = append(ops, "stop")
 		}
 		frac := rapid.IntRange(0, 999).Draw(rt, "crashPoint")
-		canon, nt, fail, err := vpC34SleepCase(base, serial, ops, func(n int) int { return frac * n / 1000 })
+		// optionally a second process continues on what the crashed one left behind
+		var ops2 []string
+		var pick2 func(n int) int
+		if rapid.IntRange(0, 2).Draw(rt, "secondProcess") > 0 {
+			n2 := rapid.IntRange(1, 4).Draw(rt, "steps2")
+			for i := 0; i < n2; i++ {
+				ops2 = append(ops2, rapid.SampledFrom([]string{"sleep", "wake", "wake", "poll"}).Draw(rt, fmt.Sprintf("op2_%d", i)))
+			}
+			if rapid.Bool().Draw(rt, "crashAgain") {
+				frac2 := rapid.IntRange(0, 999).Draw(rt, "crashPoint2")
+				pick2 = func(n int) int { return frac2 * n / 1000 }
+			}
+		}
+		canon, nt, fail, epochs, err := vpC34SleepEpochs(base, serial, ops, func(n int) int { return frac * n / 1000 }, ops2, pick2)
 		if err != nil {
 			rt.Fatalf("harness: %v", err)
 		}
-		st.Case(canon, nt)
+		st.Case(canon, nt, fmt.Sprintf("processes-%d", epochs))
 		if fail != "" {
 			rt.Fatalf("VPFAIL C34 %s\n  case: %s", fail, canon)
 		}
@@ -449,6 +513,57 @@ func TestVPKnown_C34_torn(t *testing.T) {
 		}
 		if done {
 			break
+		}
+	}
+}
+
+// TestVP_C34_SleepAllPoints is the systematic counterpart of TestVP_C34_Sleep: for short
+// histories EVERY crash point of the first process is taken in turn, and each time a second
+// process continues on the directory the crash left behind (runs to completion) before the
+// judged start. Histories x continuations are enumerated in a fixed order; VP_N bounds how
+// many combinations a run takes (quick: the first few, thorough: all).
+func TestVP_C34_SleepAllPoints(t *testing.T) {
+	st := vp.NewStats("C34", "sleep-all-points", "every crash point of a short first history (sleep | sleep,poll | sleep,wake,sleep | sleep,poll,stop), each followed by a second process that runs wake | sleep | poll | wake,sleep to completion on what was left behind; both following starts judged; non-trivial = the crash lies strictly inside the first history's syscall sequence")
+	defer st.Flush()
+	if _, err := exec.LookPath("strace"); err != nil {
+		t.Skip("strace not available")
+	}
+	base := t.TempDir()
+	firsts := [][]string{{"sleep", "poll"}, {"sleep"}, {"sleep", "wake", "sleep"}, {"sleep", "poll", "stop"}}
+	seconds := [][]string{{"wake"}, {"wake", "sleep"}, {"poll"}, {"sleep"}}
+	limit := len(firsts) * len(seconds)
+	if v, err := strconv.Atoi(os.Getenv("VP_N")); err == nil && v > 0 && v < limit {
+		limit = v
+	}
+	serial, combos := 0, 0
+	for _, second := range seconds {
+		for _, first := range firsts {
+			if combos >= limit {
+				return
+			}
+			combos++
+			for idx := 0; idx < 200; idx++ {
+				serial++
+				i := idx
+				done := false
+				canon, nt, fail, _, err := vpC34SleepEpochs(base, serial, first, func(n int) int {
+					if i >= n {
+						done = true
+						return n - 1
+					}
+					return i
+				}, second, nil)
+				if err != nil {
+					t.Fatalf("harness: %v", err)
+				}
+				if done {
+					break
+				}
+				st.Case(canon, nt, fmt.Sprintf("first-%s", strings.Join(first, "+")), fmt.Sprintf("second-%s", strings.Join(second, "+")))
+				if fail != "" {
+					t.Fatalf("VPFAIL C34 %s\n  case: %s", fail, canon)
+				}
+			}
 		}
 	}
 }
